@@ -90,8 +90,15 @@ def discharge(ob, timeout_ms=20000, seed=0, both=False):
     # portfolio: z3 briefly, then cvc5 (far better on sequences), then z3 with the full budget
     first = min(int(timeout_ms), 2500)
     s.set('timeout', first)
-    smt2 = s.to_smt2()  # before check(): afterwards the printer shows preprocessed internals
     r = s.check()
+    smt2 = None
+    if r == z3.unknown or both:
+        # printed from a fresh solver: after check() the printer shows preprocessed internals
+        sp = _solver(timeout_ms, seed)
+        for p in ob.pc:
+            sp.add(p)
+        sp.add(z3.Not(ob.goal))
+        smt2 = sp.to_smt2()
     res = None
     if r == z3.unsat:
         res = {'status': 'proved', 'backend': 'z3', 'time': time.time() - t0}
@@ -474,6 +481,17 @@ def discharge_all(obligations, timeout_ms=20000, procs=14, seed=0, both=False):
         return []
     _GROUPS = make_groups(obligations) if not both else [[i] for i in range(len(obligations))]
     out = [None] * len(obligations)
+    if not both:
+        # goals that the simplifier already reduces to true need neither a solver nor a worker process
+        rest = []
+        for grp in _GROUPS:
+            if len(grp) == 1 and not obligations[grp[0]].expect_sat and z3.is_true(z3.simplify(obligations[grp[0]].goal)):
+                out[grp[0]] = {'status': 'proved', 'backend': 'simplifier', 'time': 0.0}
+            else:
+                rest.append(grp)
+        _GROUPS = rest
+        if not _GROUPS:
+            return out
     if procs <= 1 or len(_GROUPS) < 4:
         for gi in range(len(_GROUPS)):
             for i, r in _work(gi):
